@@ -562,6 +562,12 @@ def rule_data_phase_model(ctx) -> None:
             probs.append(f"_read_data, {label}: {got} (unread script items {left}), expected {want}")
         elif want[0] == "return" and me._status_code != script[-1].status:
             probs.append(f"_read_data, {label}: status {me._status_code} is not the device's {script[-1].status}")
+    # exceptions off, the device closes the data phase with SUCCESS before all requested bytes arrived: partial data must not look like success
+    out, _w, me, left = model("_read_data", [b"ab", resp(READ, OKS)], {"cmd_tag": READ, "length": 4}, False)
+    n += 1
+    short_ok = not (out.kind == "return" and isinstance(out.value, (bytes, bytearray)) and len(out.value) < 4 and me._status_code == OKS)
+    ctx.chk.decide(short_ok, "C10.short-read", f"{MB}::McuBoot._read_data", "fewer bytes than requested are not reported with status SUCCESS (exceptions off)",
+                   "with cmd_exception off a data phase that ends early with a SUCCESS final response returns the partial data and leaves status_code SUCCESS", "failure status or an exception", A.loc(MB, ctx.own(MB, "McuBoot", "_read_data").node))
     sends = [
         ("two chunks, success", READ, [b"ab", b"cde"], [resp(READ, OKS)], False, ("return", True), [b"ab", b"cde"]),
         ("device reports FAIL, exceptions off", READ, [b"ab", b"cde"], [resp(READ, FAIL)], False, ("return", False), [b"ab", b"cde"]),
